@@ -158,7 +158,7 @@ def oracle(case, out, full):
     if len(f) >= 4:
         buf = unhexs(f[2])
         if buf != full and not sc: return "to_buffer differs from what to_html writes"
-        if f[3] != "101": return "HtmlBuffer PartialEq is not byte equality: " + f[3]
+        if f[3] != "1010": return "HtmlBuffer PartialEq is not byte equality (equal to its bytes, unequal to them plus one, equal to its text, unequal to near misses around line ends): " + f[3]
     return None
 
 def template_level(chk, oracle_fail, disagree, tier):
